@@ -64,6 +64,7 @@ type Obligation struct {
 	Extra   map[string]string // replay hints: names of model symbols
 	Answer  *SolverAnswer
 	Comment string
+	Custom  string // complete query text (relational obligations)
 }
 
 // ---------------------------------------------------------------- per-function context
@@ -99,6 +100,9 @@ type FnExec struct {
 	loopHead map[int]*loopInfo
 	retVals  [][]Val
 	deferred []deferredCall
+	recordBranches bool
+	branches []branchRec
+	returns  []retRec
 	frame    []modTarget
 	frameOK  bool
 	nalloc   int
